@@ -227,7 +227,7 @@ impl Check for C14 {
     fn total_cases(&self, tier: Tier) -> u64 {
         match tier {
             Tier::Quick => 300_000,
-            Tier::Thorough => 6_000_000,
+            Tier::Thorough => 20_000_000,
         }
     }
     fn strategy(&self, _tier: Tier) -> BoxedStrategy<PCase> {
